@@ -22,7 +22,7 @@ var c07Tokens = []string{"..", ".", "", "/", "//", "/etc", "../x", "..\x00", "a/
 var c07Benign = []string{"f.txt", "dir", "inner.txt", "other", "Uploads", "new", "x y", "caf\x8e"}
 
 var c07Markers = []string{"MARKER-S-CANARY-7f3a", "MARKER-CFG-CANARY-91bc", "MARKER-EVIL-SECRET-c2d1", "MARKER-USERSBAK-5e5e", "MARKER-BOARD-aa10", "MARKER-ALT-OUTSIDE-0b0b"}
-var c07DecoyNames = []string{"canary.txt", "canary.yaml", "Files-evil", "Users.bak", "secret-evil.txt", "Users", "MessageBoard.txt", "Banlist.yaml", "ThreadedNews.yaml", "Agreement.txt", "cfg"}
+var c07DecoyNames = []string{"outside-alt.txt", "canary.txt", "canary.yaml", "Files-evil", "Users.bak", "secret-evil.txt", "Users", "MessageBoard.txt", "Banlist.yaml", "ThreadedNews.yaml", "Agreement.txt", "cfg"}
 
 func c07Item(rt *rapid.T, label string) (string, bool) {
 	if rapid.IntRange(0, 9).Draw(rt, label+"_k") < 6 {
@@ -79,6 +79,9 @@ func c07prop(ev *evid.Rec) func(rt *rapid.T) {
 	return func(rt *rapid.T) {
 		altRoot := rapid.IntRange(0, 3).Draw(rt, "altroot") == 0
 		altEdited := rapid.Bool().Draw(rt, "altAccountEditedThenRestart")
+		// the folder an account is rooted in may be gone when the account is used (somebody with a wider root renamed it):
+		// the account then has no files at all - it is not let into the server's tree instead
+		altGone := rapid.IntRange(0, 2).Draw(rt, "altRootRenamedAway") == 0
 		nreq := rapid.IntRange(1, 3).Draw(rt, "nreq")
 		var done []c07req
 		reached := false
@@ -129,6 +132,9 @@ func c07prop(ev *evid.Rec) func(rt *rapid.T) {
 			login, pw := "admin", "adminpw"
 			if altRoot {
 				login, pw = "alt", "altpw"
+				if altGone {
+					must(os.Rename(root, root+" renamed away"))
+				}
 			}
 			relRoot, _ := filepath.Rel(S, root)
 			relUsers, _ := filepath.Rel(S, w.UsersDir)
